@@ -131,12 +131,12 @@ def powRat (q : Rat) : Nat → Rat
   | 0 => 1
   | n + 1 => powRat q n * q
 
-/-- how `Uniform.logpdf` obtains the volume: `diff = high - low`; a Python/numpy *scalar* is raised to
-    the power `dim` (`diff**self.dim`, repaired in /repo by commit 53dfade; the pinned snapshot used
-    `diff` itself), an *array* is multiplied up — over the entries of `diff`, not over the `dim`
-    components (so a one-element array over a multi-dimensional geometry still counts one factor) -/
-def uniformVolCode (dim : Nat) (scalarDiff : Bool) (lo hi : List Rat) : Rat :=
-  if scalarDiff then powRat (bc 0 hi 0 - bc 0 lo 0) dim else
+/-- how `Uniform.logpdf` obtains the volume: `diff = high - low`; a Python/numpy scalar is raised to the
+    power `dim` (`diff**self.dim`, /repo commit 53dfade), a one-element array likewise
+    (`np.ravel(diff)[0]**self.dim`, commit 39cce69), a longer array is multiplied up (`np.prod(diff)`).
+    In the model a scalar and a one-element array are both lists of length 1. -/
+def uniformVolCode (dim : Nat) (lo hi : List Rat) : Rat :=
+  if max lo.length hi.length ≤ 1 then powRat (bc 0 hi 0 - bc 0 lo 0) dim else
   let k := max lo.length hi.length
   (List.range k).foldl (fun acc j => acc * (bc 0 hi j - bc 0 lo j)) 1
 
@@ -220,9 +220,10 @@ def cdfCombine (r : CdfRule) (n : Nat) (F : Nat → α) : α :=
   | .sum => sumTo n F
 end
 
-/-- `Beta.cdf` guard: any `x<=0` or `x>=1` (or invalid parameter) ⇒ returns `0` -/
+/-- `Beta.cdf` guard: any `x<=0` (or invalid parameter) ⇒ returns `0`; components with `x>=1` go through
+    `scipy.stats.beta.cdf`, which is 1 there (/repo commit 140c6b9; the pinned snapshot returned 0) -/
 def betaCdfGuardZero (x a b : List Rat) : Bool :=
-  x.any (· ≤ 0) || x.any (· ≥ 1) || a.any (· ≤ 0) || b.any (· ≤ 0)
+  x.any (· ≤ 0) || a.any (· ≤ 0) || b.any (· ≤ 0)
 
 /-! ## 3. Gaussian parameterisations -/
 
